@@ -26,7 +26,7 @@ func (c13) Level() string { return "model_checking" }
 func (c13) Rule() string {
 	return "scenario = (DAG up to isomorphism on <=4 services, direction, concurrency limit, root selection, error injection); for each scenario every schedule of the instrumented traversal (caller, coordinator, one thread per visit; errgroup's own semaphore/WaitGroup/Once scheduled too) with iterative preemption bounding and every ready select branch, happens-before state caching; 8 monitors on every execution incl. ThreadSanitizer inside the schedule. state = distinct happens-before prefix expanded; transition = executed synchronisation step; distinct = scenarios explored"
 }
-func (c13) Env() []string  { return []string{"GOMAXPROCS=1"} }
+func (c13) Env() []string { return []string{"GOMAXPROCS=1"} }
 func (c13) Assumptions() []string {
 	return []string{
 		"schedules with more preemptions than the bound are not explored; weak-memory behaviours are not modelled (data-race freedom is checked per schedule)",
@@ -196,9 +196,9 @@ func (s c13scn) expected() map[int]bool {
 }
 
 type c13run struct {
-	log *Log
-	err error
-	ret bool
+	log  *Log
+	err  error
+	ret  bool
 	live int
 }
 
@@ -418,65 +418,70 @@ func (c13) Run(c *core.Ctx) {
 			if s.d.n >= 4 && c.Quick() {
 				b = 1
 			}
-			var cur *c13run
-			var proj *types.Project
-			var before string
-			outcomes := map[string]struct{}{}
-			setup := func() (func(), func(*vsched.Sched) string) {
-				body, _, r, p := s.setup()
-				cur, proj = r, p
-				before = jsonOf(p)
-				return body, func(sc *vsched.Sched) string {
-					if sc.Fail != nil {
-						return ""
-					}
-					outcomes[cur.log.String()] = struct{}{}
-					key, msg := s.monitor(cur)
-					if key != "" {
-						return key + "|" + msg + " | events: " + cur.log.String()
-					}
-					if after := jsonOf(proj); after != before {
-						return "project-modified|the project was modified by the walk"
-					}
-					return ""
-				}
-			}
-			res := ExploreScenario(b, true, c.Dead, c.Heartbeat, setup)
-			res.Outcomes = len(outcomes)
-			c.Count("states", res.States)
-			c.Count("transitions", res.Transitions)
-			c.Count("traces_validated_against_impl", res.Executions)
-			c.Count("executions", res.Executions)
-			sample := map[string]any{"scenario": s.id(), "executions": res.Executions, "states": res.States, "bound_completed": res.Bound, "distinct_outcomes": res.Outcomes}
-			if res.FailMsg != "" {
-				key, msg := "schedule-failure", res.FailMsg
-				if i := strings.Index(res.FailMsg, "|"); i > 0 && !strings.HasPrefix(res.FailMsg, "deadlock") {
-					key, msg = res.FailMsg[:i], res.FailMsg[i+1:]
-				} else if strings.HasPrefix(res.FailMsg, "deadlock") {
-					key = "deadlock"
-					if len(s.errs) > 0 {
-						key += ":after-visitor-error"
-					}
-				} else if strings.HasPrefix(res.FailMsg, "panic") {
-					key = "panic"
-				} else if strings.HasPrefix(res.FailMsg, "NONDETERMINISTIC") {
-					return core.Outcome{Class: "nondeterministic", Trivial: true, Sample: sample}
-				}
-				return core.Outcome{Class: s.id(), Sample: sample, Viol: &core.Violation{Key: key,
-					Msg:    fmt.Sprintf("scenario %s, schedule %v (preemption bound %d): %s", s.id(), res.FailPrefix, res.Bound, msg),
-					Detail: map[string]any{"scenario": s.id(), "schedule": res.FailPrefix, "trace": traceString(res.FailTrace)}}}
-			}
-			if reps := NewRaceReports(); len(reps) > 0 {
-				return core.Outcome{Class: s.id(), Sample: sample, NoRecheck: true, Viol: &core.Violation{Key: "data-race@" + RaceSite(reps[0]),
-					Msg: fmt.Sprintf("scenario %s: ThreadSanitizer reports a data race inside an explored schedule", s.id()), Detail: reps[0]}}
-			}
-			if res.Capped {
-				c.Note("deadline reached inside scenario " + s.id() + ": explored partially")
-			}
-			return core.Outcome{Class: s.id(), Sample: sample}
+			return s.explore(c, b, "")
 		})
 	}
 	c13cyclic(c)
+}
+
+// explore runs every schedule of the scenario within the preemption bound and evaluates the monitors.
+func (s c13scn) explore(c *core.Ctx, b int, keyPrefix string) core.Outcome {
+	var cur *c13run
+	var proj *types.Project
+	var before string
+	outcomes := map[string]struct{}{}
+	setup := func() (func(), func(*vsched.Sched) string) {
+		body, _, r, p := s.setup()
+		cur, proj = r, p
+		before = jsonOf(p)
+		return body, func(sc *vsched.Sched) string {
+			if sc.Fail != nil {
+				return ""
+			}
+			outcomes[cur.log.String()] = struct{}{}
+			key, msg := s.monitor(cur)
+			if key != "" {
+				return key + "|" + msg + " | events: " + cur.log.String()
+			}
+			if after := jsonOf(proj); after != before {
+				return "project-modified|the project was modified by the walk"
+			}
+			return ""
+		}
+	}
+	res := ExploreScenario(b, true, c.Dead, c.Heartbeat, setup)
+	res.Outcomes = len(outcomes)
+	c.Count("states", res.States)
+	c.Count("transitions", res.Transitions)
+	c.Count("traces_validated_against_impl", res.Executions)
+	c.Count("executions", res.Executions)
+	sample := map[string]any{"scenario": s.id(), "executions": res.Executions, "states": res.States, "bound_completed": res.Bound, "distinct_outcomes": res.Outcomes}
+	if res.FailMsg != "" {
+		key, msg := "schedule-failure", res.FailMsg
+		if i := strings.Index(res.FailMsg, "|"); i > 0 && !strings.HasPrefix(res.FailMsg, "deadlock") {
+			key, msg = res.FailMsg[:i], res.FailMsg[i+1:]
+		} else if strings.HasPrefix(res.FailMsg, "deadlock") {
+			key = "deadlock"
+			if len(s.errs) > 0 {
+				key += ":after-visitor-error"
+			}
+		} else if strings.HasPrefix(res.FailMsg, "panic") {
+			key = "panic"
+		} else if strings.HasPrefix(res.FailMsg, "NONDETERMINISTIC") {
+			return core.Outcome{Class: "nondeterministic", Trivial: true, Sample: sample}
+		}
+		return core.Outcome{Class: s.id(), Sample: sample, Viol: &core.Violation{Key: keyPrefix + key,
+			Msg:    fmt.Sprintf("scenario %s, schedule %v (preemption bound %d): %s", s.id(), res.FailPrefix, res.Bound, msg),
+			Detail: map[string]any{"scenario": s.id(), "schedule": res.FailPrefix, "trace": traceString(res.FailTrace)}}}
+	}
+	if reps := NewRaceReports(); len(reps) > 0 {
+		return core.Outcome{Class: s.id(), Sample: sample, NoRecheck: true, Viol: &core.Violation{Key: keyPrefix + "data-race@" + RaceSite(reps[0]),
+			Msg: fmt.Sprintf("scenario %s: ThreadSanitizer reports a data race inside an explored schedule", s.id()), Detail: reps[0]}}
+	}
+	if res.Capped {
+		c.Note("deadline reached inside scenario " + s.id() + ": explored partially")
+	}
+	return core.Outcome{Class: s.id(), Sample: sample}
 }
 
 func traceString(tr []vsched.TraceEv) string {
